@@ -66,6 +66,11 @@ def run(ctx):
     _oi_apply(ctx, prog)
     _partial_close(ctx, prog, dec)
     _writers(ctx, prog)
+    if dec is not None:
+        # the decrease's size / withdrawal amounts may be promoted or capped by check_partial_close / check_close: the open
+        # interest and size bookkeeping must use the values behind those calls (added after the independent seed C07-2)
+        from .. import stale
+        stale.rule(ctx, prog, "fresh-read", dec, ["size_delta_usd", "withdrawable_collateral_amount"], 3)
 
 
 # ------------------------------------------------------------------------------------------------ helpers
